@@ -192,6 +192,47 @@ theorem fragment_fits (p : Packet) (lb : Option BlockValue) (M size : Nat) (b : 
   simp only [Consts.blockOptionsMaxLength] at hle h16
   omega
 
+/-- negotiating against a larger measured size only tightens the budget: the block budget for
+`size + slack` is the budget for `size` minus `slack` -/
+theorem blockBudget_slack (size slack tp M : Nat) (h : tp ≤ size) :
+    blockBudget (size + slack) tp M = blockBudget size tp M - slack := by
+  unfold blockBudget
+  omega
+
+/-- D19: every block of a fragmented response fits, whatever token (of at most 8 bytes) the
+request for that block carries and whatever its block number is. The block size `b` was
+negotiated for the application's reply `p` with room reserved for a maximum-length token
+(`size + (8 - |p.token|)`); the reply to a later request is `p`'s header fields and options with
+that request's token `tok`, a Block2 value `b'` of the same size, and a chunk of at most that size. -/
+theorem followup_fits (p : Packet) (lb : Option BlockValue) (M size : Nat) (b b' : BlockValue)
+    (bs chunk tok : Bytes)
+    (hs : p.options.Sorted) (hk : ∀ kv ∈ p.options, kv.1 ≤ 65535)
+    (hg : p.getOption block2Num = none)
+    (hlb : ∀ r, lb = some r → BvOk r)
+    (hsz : computeMessageSize p = .ok size)
+    (hneg : negotiate lb (size + tokenReserve p) p.payload.length M = .ok (some b))
+    (h16 : 16 ≤ blockBudget (size + tokenReserve p) p.payload.length M)
+    (hb' : BvOk b') (hbs : b'.enc = .ok bs)
+    (hc : chunk.length ≤ b.size) (htok : tok.length ≤ 8) (hptok : p.token.length ≤ 8) :
+    wireLen (toMsg { (p.setOption block2Num [bs]) with payload := chunk, token := tok }) ≤ M := by
+  have hsize := computeMessageSize_eq p size hsz
+  have hneg' := negotiate_some lb (size + tokenReserve p) p.payload.length M b hlb (by omega) hneg
+  obtain ⟨_, _, hbud, _, _⟩ := hneg'
+  have hle := hbud h16
+  have hbs3 : bs.length ≤ 3 := enc_length_le_3 b' hb' bs hbs
+  have hw := wireLen_block_message p block2Num bs chunk hs hk hg hbs3 (Or.inr rfl)
+  rw [wireLen_toMsg] at hw ⊢
+  simp only [Packet.setOption, sent] at hw ⊢
+  unfold blockBudget at hle h16
+  unfold tokenReserve at hle h16
+  simp only [Consts.blockOptionsMaxLength, Consts.maximumTokenLength] at hle h16
+  rw [wireLen_toMsg_nopayload] at hsize hw
+  by_cases hd : p.header.code ≠ MessageClass.Empty ∧ chunk ≠ []
+  · simp only [hd, and_self, decide_true, if_true, not_false_eq_true, ne_eq] at hw ⊢
+    omega
+  · simp only [hd, decide_false, Bool.false_eq_true, if_false] at hw ⊢
+    omega
+
 /-- a response the handler leaves unfragmented fits the budget too -/
 theorem unfragmented_fits (p : Packet) (M size : Nat)
     (hsz : computeMessageSize p = .ok size)
